@@ -164,3 +164,18 @@ def can_lit(v):
         return True
     except NoLiteral:
         return False
+
+
+def reset_shared_errors():
+    """Harness hygiene: drop the traceback chains of the library's shared error objects before a case.
+    If the tree under test lets them grow (that is what C02 no_retention measures, inside a single case), debug-mode
+    tracebacks would otherwise get longer with every case of the process and the whole run would crawl."""
+    err = errors()
+    for name in ('ERROR', 'DIV_ZERO', 'NAME', 'NOT_AVAILABLE', 'NULL', 'NUM', 'REF', 'VALUE', 'DATA'):
+        e = getattr(err, name, None)
+        if e is not None:
+            try:
+                e.__traceback__ = None
+            except Exception:
+                pass
+
